@@ -44,10 +44,10 @@ func (c15) Info(tier string) fw.Info {
 	return fw.Info{
 		Level: "exploration",
 		Rule: "module graphs (entry `main` + up to 4 modules; every module declares a singleton, an edge function calling the edge functions it imports, and items named f, g, v, T reused across modules with tag-returning bodies `\"a.f(\" + v + \",\" + g() + \")\"`; " +
-			"functions append a mark to their module's private globals; modules may also declare singletons `$K`, `$L` under names shared with other modules: every function of such a module appends its tag to the singleton's log and reads it back, through a singleton extraction parameter or through the expression `$K`) are enumerated exhaustively within this bound: " + Bound(tier) + "; plus seeded random graphs with 3-5 modules beyond the bound. " +
+			"functions append a mark to their module's private globals; modules may also declare singletons `$K`, `$L` under names shared with other modules: every function of such a module appends its tag to the singleton's log and reads it back, through a singleton extraction parameter or through the expression `$K`; a call may end with the value of the last expression, with `return`, or with a `throw` of the result - directly or from a private helper - that a `try` around the call or only the entry's main catches, marking the result with `!`; edge functions may be handed a private function of another module as a value and call it) are enumerated exhaustively within this bound: " + Bound(tier) + "; plus seeded random graphs with 3-5 modules beyond the bound. " +
 			"Oracle: a model linker (name -> defining module by the import statements and pub only) predicts per import statement legal / private / missing item / missing module / cyclic and, for accepted graphs, the exact text printed. " +
 			"The analyzer must report an error on every illegal import statement (mentioning the item or module) and none on legal ones; accepted graphs run " + fmt.Sprint(reps(tier)) + " times on the VM (fresh Analyze+Compile each, module map re-inserted in rotating permutations) and once on the interpreter; " +
-			"every run must print the predicted text (a function works on the globals and singletons of its defining module) and load every singleton of every reachable module exactly once before the first output. " +
+			"every run must print the predicted text (a function works on the globals and singletons of its defining module, and so does its caller after the call has ended, whichever way it ended) and load every singleton of every reachable module exactly once before the first output. " +
 			"non-trivial = a reachable illegal import was judged, or an accepted graph with at least one import edge ran on both backends; distinct = distinct graph. " +
 			"While a finding listed in known_findings.txt is open, graphs carrying its hazard tag are replaced by a poisoned workload of at most " + fmt.Sprint(poisonQuota) + " graphs per family.",
 		Assumptions: []string{
@@ -410,7 +410,7 @@ func judgeRun(backend string, g *Graph, lk *Link, want string, effects []drive.E
 		} else if oc.Kind != "" {
 			sig += "/" + oc.Kind
 		}
-		v.fail(sig, fmt.Sprintf("%s: program ended with %s; printed so far:\n%s\n--- expected\n%s", backend, how, util.Clip(got, 800), util.Clip(want, 800)), detail)
+		v.fail(sig, fmt.Sprintf("%s: program ended with %s%s; printed so far:\n%s\n--- expected\n%s", backend, how, modeHint(g), util.Clip(got, 800), util.Clip(want, 800)), detail)
 		return
 	}
 	if got != want {
@@ -419,7 +419,7 @@ func judgeRun(backend string, g *Graph, lk *Link, want string, effects []drive.E
 		if class == "wrong-singleton-state" {
 			hint = " (the first difference is in the log of a singleton: every function appends its tag to the `$K` of its defining module and reads that one back, whatever the calling module declares)"
 		}
-		v.fail(backend+":"+class, fmt.Sprintf("%s printed%s\n%s--- the import statements say\n%s", backend, hint, util.Clip(got, 1200), util.Clip(want, 1200)), detail)
+		v.fail(backend+":"+class, fmt.Sprintf("%s printed%s%s\n%s--- the import statements say\n%s", backend, hint, modeHint(g), util.Clip(got, 1200), util.Clip(want, 1200)), detail)
 	}
 	if checkInit {
 		for _, mn := range lk.ReachSeq {
@@ -471,6 +471,36 @@ func judgeRun(backend string, g *Graph, lk *Link, want string, effects []drive.E
 			v.fail(backend+":init-late", backend+": a module was initialised after main had started to print", detail)
 		}
 	}
+}
+
+// modeHint names what is special about the calls of the graph (nothing for the plain graphs).
+func modeHint(g *Graph) string {
+	var parts []string
+	switch g.Exit {
+	case "return":
+		parts = append(parts, "every function ends with `return`")
+	case "throw":
+		parts = append(parts, "every function ends with `throw(result)`")
+	case "throw-deep":
+		parts = append(parts, "every function ends by calling a private helper of its module that throws the result")
+	}
+	if g.throws() {
+		if g.Catch == "entry" {
+			parts = append(parts, "only the entry's main catches (the exception unwinds the frames of all modules on its way) and marks the result with `!`")
+		} else {
+			parts = append(parts, "a `try` around every call catches it in the calling module and marks the result with `!`")
+		}
+	}
+	switch g.Callback {
+	case "own":
+		parts = append(parts, "every edge function is handed the private function k of the calling module as a value and calls it")
+	case "relay":
+		parts = append(parts, "the entry's private function k is handed down through the edge functions as a value, each of them calls it")
+	}
+	if len(parts) == 0 {
+		return ""
+	}
+	return " (in this program " + strings.Join(parts, "; ") + "; whichever way a call ends, the caller must go on against the globals of its own module and the callee must have run against those of its defining module)"
 }
 
 // permute returns the k-th permutation (mod n!) of xs.
@@ -553,6 +583,19 @@ func runGraph(c fw.Case, g *Graph, poison bool) (res fw.Result) {
 	v.res.Cover = append(v.res.Cover, "family:"+g.Family, fmt.Sprintf("modules:%d", len(g.Mods)))
 	for _, t := range c.Tags {
 		v.res.Cover = append(v.res.Cover, "hazard:"+t)
+	}
+	if g.Exit != "" {
+		v.res.Cover = append(v.res.Cover, "exit:"+g.Exit)
+	}
+	if g.throws() {
+		if g.Catch == "entry" {
+			v.res.Cover = append(v.res.Cover, "catch:entry")
+		} else {
+			v.res.Cover = append(v.res.Cover, "catch:call-site")
+		}
+	}
+	if g.Callback != "" {
+		v.res.Cover = append(v.res.Cover, "callback:"+g.Callback)
 	}
 	detail := map[string]any{"graph": Describe(g), "source": rd.Src}
 	defer func() {
